@@ -61,6 +61,10 @@ package vgirpc
 //@   at call bytes.NewReader assert [parsefetched] arg0 == fetchedData && fetchErr == nil
 //@   at call bytes.NewReader assert [checksumfirst] shaNamed ==> shaComputed
 //@   at call arrow.RecordBatch.Retain assert [onlydata] !isLog && !(hasLocation && numRows(rec) == 0) && arg0 == rec
+//@   # every batch of the fetched stream is examined before anything is returned as resolved: the
+//@   # selection loop ends only when the reader has nothing more (a pointer batch anywhere in the
+//@   # stream — before or after a data batch — is therefore seen and refused)
+//@   ensures [local_wholestream] result2 == nil && resolvedBatch != nil ==> exhausted(reader)
 
 // the redirect policy installed for the fetch: a redirect is followed only while the hop count is
 // within the limit and the validator (when there is one) accepts the target
@@ -70,6 +74,18 @@ package vgirpc
 //@   ensures [local_redirectcap] result == nil ==> len(via) <= maxRedirects
 //@   at call "captured:previousRedirectPolicy" assert [checkedfirst] len(via) <= maxRedirects
 //@   ensures [local_limit_ret1] result != nil
+//@   # every hop is put to the validator (when there is one), with the hop's own URL, and is
+//@   # followed — or handed to the caller's own redirect policy — only if the validator accepted it
+//@   pathflag hopChecked
+//@   pathflag hopOK
+//@   pathvar hopURL string
+//@   at call (*url.URL).String assert [hopsown] arg0 == req.URL
+//@   at call (*url.URL).String setflag hopURL result
+//@   at call "captured:validator" assert [hopurl] arg0 == hopURL
+//@   at call "captured:validator" mark hopChecked
+//@   at call "captured:validator" setflag hopOK result == nil
+//@   at call "captured:previousRedirectPolicy" assert [validatedfirst] validator == nil || (hopChecked && hopOK)
+//@   ensures [local_hopvalidated] result == nil ==> validator == nil || (hopChecked && hopOK)
 
 // fetchExternalData: one GET of the given URL under that policy; at most cap+1 bytes are read and
 // a longer body is refused; a zstd body is decoded under the decompression cap
